@@ -184,3 +184,192 @@ theorem leaderAssign_spec {w : List (Str × Bytes)} {ms : List Member} (hd : dec
       simp [dget] at hps
 
 end Afkak.Assign
+
+namespace Afkak.Assign
+open Afkak.Consts Afkak.Monitor.C15
+
+/-! ### the leader's glue with an ARBITRARY loader answer -/
+
+/-- Every way the leader's two calls can end, whatever `_load_topic_partitions` answers: the
+    assertion; `_NeedTopicPartitions` raised by the SECOND call — outside the `try`, so it leaves
+    `_join_and_sync` — exactly when the answer lacks a subscribed topic; otherwise the round-robin
+    assignment over the loaded map, encoded per member. -/
+theorem leaderAssign_outcomes {w : List (Str × Bytes)} {ms : List Member} (hd : decodeMembers w = .ok ms)
+    (load : List Str → Dict Str (List Int)) :
+    (allTopics (memberMetadata ms) = [] ∧ leaderAssign w load = .error .assertion) ∨
+    (allTopics (memberMetadata ms) ≠ [] ∧
+      (∃ t ∈ allTopics (memberMetadata ms), dget t (load (sortBy strLe (allTopics (memberMetadata ms)))) = none) ∧
+      leaderAssign w load = .error (.need (sortBy strLe (allTopics (memberMetadata ms))))) ∨
+    (allTopics (memberMetadata ms) ≠ [] ∧
+      (∀ t ∈ allTopics (memberMetadata ms), ∃ ps, dget t (load (sortBy strLe (allTopics (memberMetadata ms)))) = some ps) ∧
+      ∃ asg, roundRobin (memberMetadata ms) (load (sortBy strLe (allTopics (memberMetadata ms)))) = .ok asg ∧
+        leaderAssign w load = encodeEach asg ms) := by
+  have hn := nodup_keys_memberMetadata ms
+  unfold leaderAssign generateAssignmentsB
+  rw [hd]
+  simp only
+  rcases roundRobin_outcome hn [] with ⟨h0, h1⟩ | ⟨h0, -, h1⟩ | ⟨h0, h1, -⟩
+  · left
+    exact ⟨h0, by simp only [generateAssignments, h1]⟩
+  · right
+    simp only [generateAssignments, h1]
+    rcases roundRobin_outcome hn (load (sortBy strLe (allTopics (memberMetadata ms)))) with ⟨h0', -⟩ | ⟨-, hmiss, hneed⟩ | ⟨-, hall, asg, hasg⟩
+    · exact absurd h0' h0
+    · left; exact ⟨h0, hmiss, by simp only [hneed]⟩
+    · right; exact ⟨h0, hall, asg, hasg, by simp only [hasg]⟩
+  · exfalso
+    cases hts : allTopics (memberMetadata ms) with
+    | nil => exact h0 hts
+    | cons t ts =>
+      obtain ⟨ps, hps⟩ := h1 t (by rw [hts]; exact List.mem_cons_self)
+      simp [dget] at hps
+
+/-! ### `_load_topic_partitions` keeps its promise -/
+
+theorem snapshotLoop_spec {r : MetaReply} {asked : List Str} {acc snap : Dict Str (List Int)}
+    (h : snapshotLoop r asked acc = some snap)
+    (hacc : ∀ t ps, dget t acc = some ps → ps ≠ []) :
+    (∀ t ps, dget t snap = some ps → ps ≠ []) ∧
+    (∀ t, (∃ ps, dget t acc = some ps) → ∃ ps, dget t snap = some ps) ∧
+    (∀ t ∈ asked, ∃ ps, dget t snap = some ps) := by
+  induction asked generalizing acc with
+  | nil =>
+    simp only [snapshotLoop, Option.some.injEq] at h
+    subst h
+    exact ⟨hacc, fun t ht => ht, by simp⟩
+  | cons t ts ih =>
+    simp only [snapshotLoop] at h
+    cases hr : dget t r with
+    | none => rw [hr] at h; simp at h
+    | some e =>
+      obtain ⟨err, ps⟩ := e
+      rw [hr] at h
+      simp only at h
+      by_cases he : err ≠ 0
+      · rw [if_pos he] at h; simp at h
+      · rw [if_neg he] at h
+        by_cases hp : ps = []
+        · rw [if_pos hp] at h; simp at h
+        · rw [if_neg hp] at h
+          have hne : sortBy intLe (dedup ps) ≠ [] := by
+            intro hnil
+            obtain ⟨p, hpm⟩ := List.exists_mem_of_ne_nil _ hp
+            have : p ∈ sortBy intLe (dedup ps) := (mem_sortBy intLe).mpr (mem_dedup.mpr hpm)
+            rw [hnil] at this; simp at this
+          obtain ⟨i1, i2, i3⟩ := ih h (by
+            intro t' ps' hd'
+            rw [dget_dset] at hd'
+            split at hd'
+            · simp only [Option.some.injEq] at hd'; subst hd'; exact hne
+            · exact hacc t' ps' hd')
+          refine ⟨i1, ?_, ?_⟩
+          · intro t' ⟨ps', hd'⟩
+            refine i2 t' ?_
+            rw [dget_dset]
+            split
+            · exact ⟨_, rfl⟩
+            · exact ⟨ps', hd'⟩
+          · intro t' ht'
+            rcases List.mem_cons.mp ht' with rfl | ht'
+            · exact i2 t' ⟨_, by rw [dget_dset, if_pos rfl]⟩
+            · exact i3 t' ht'
+
+/-- When `_load_topic_partitions` fires, its snapshot has a non-empty entry for every requested
+    topic, whatever the replies were. -/
+theorem loadTopicPartitions_covers {asked : List Str} {replies : List MetaReply} {snap : Dict Str (List Int)} {n : Nat}
+    (h : loadTopicPartitions asked replies = some (snap, n)) : loadCovers asked snap = true := by
+  induction replies generalizing n with
+  | nil => simp [loadTopicPartitions] at h
+  | cons r rs ih =>
+    simp only [loadTopicPartitions] at h
+    cases hs : snapshotOf r asked with
+    | some s =>
+      rw [hs] at h
+      simp only [Option.some.injEq, Prod.mk.injEq] at h
+      obtain ⟨rfl, -⟩ := h
+      obtain ⟨h1, -, h3⟩ := snapshotLoop_spec (acc := []) hs (by intro t ps hd; simp [dget] at hd)
+      unfold loadCovers
+      rw [List.all_eq_true]
+      intro t ht
+      obtain ⟨ps, hps⟩ := h3 t ht
+      have := h1 t ps hps
+      simp only [hps]
+      cases ps with
+      | nil => exact absurd rfl this
+      | cons _ _ => rfl
+    | none =>
+      rw [hs] at h
+      cases hl : loadTopicPartitions asked rs with
+      | none => rw [hl] at h; simp at h
+      | some x =>
+        obtain ⟨s', n'⟩ := x
+        rw [hl] at h
+        simp only [Option.some.injEq, Prod.mk.injEq] at h
+        obtain ⟨rfl, -⟩ := h
+        exact ih hl
+
+/-! ### the subscription encoder does not raise on in-range input -/
+
+theorem utf8EncodeChar_ok {c : Nat} (h1 : c < 0x110000) (h2 : ¬ (0xD800 ≤ c ∧ c ≤ 0xDFFF)) :
+    ∃ b, utf8EncodeChar c = .ok b ∧ b.length = utf8CharLen c := by
+  unfold utf8EncodeChar utf8CharLen
+  by_cases a1 : c < 0x80
+  · exact ⟨_, by rw [if_pos a1], by rw [if_pos a1]; rfl⟩
+  · by_cases a2 : c < 0x800
+    · exact ⟨_, by rw [if_neg a1, if_pos a2], by rw [if_neg a1, if_pos a2]; rfl⟩
+    · by_cases a3 : c < 0x10000
+      · exact ⟨_, by rw [if_neg a1, if_neg a2, if_pos a3, if_neg h2], by rw [if_neg a1, if_neg a2, if_pos a3]; rfl⟩
+      · exact ⟨_, by rw [if_neg a1, if_neg a2, if_neg a3, if_pos h1], by rw [if_neg a1, if_neg a2, if_neg a3]; rfl⟩
+
+theorem utf8Encode_ok {t : Str} (h : ∀ c ∈ t, c < 0x110000 ∧ ¬ (0xD800 ≤ c ∧ c ≤ 0xDFFF)) :
+    ∃ b, utf8Encode t = .ok b ∧ b.length = (t.map utf8CharLen).sum := by
+  induction t with
+  | nil => exact ⟨[], rfl, rfl⟩
+  | cons c t ih =>
+    obtain ⟨b1, hb1, hl1⟩ := utf8EncodeChar_ok (h c List.mem_cons_self).1 (h c List.mem_cons_self).2
+    obtain ⟨b2, hb2, hl2⟩ := ih (fun c' hc' => h c' (List.mem_cons_of_mem _ hc'))
+    exact ⟨b1 ++ b2, by rw [utf8Encode, hb1, hb2], by simp [hl1, hl2]⟩
+
+theorem writeShortText_ok {t : Str} (h : ∀ c ∈ t, c < 0x110000 ∧ ¬ (0xD800 ≤ c ∧ c ≤ 0xDFFF))
+    (hl : (t.map utf8CharLen).sum ≤ 32767) : ∃ bs, writeShortText t = .ok bs := by
+  obtain ⟨b, hb, hbl⟩ := utf8Encode_ok h
+  unfold writeShortText
+  rw [hb]
+  simp only [writeShortBytes]
+  rw [if_neg (by simp only [asgShortStrMax]; omega)]
+  obtain ⟨l, hl'⟩ := packInt_ok_of_range (w := asgShortLenEncW) (v := (b.length : Int))
+    (by simp [asgShortLenEncW]) (by simp [asgShortLenEncW]; omega)
+  exact ⟨_, by rw [hl']⟩
+
+theorem encodeSubs_ok {subs : List Str}
+    (h : ∀ t ∈ subs, (∀ c ∈ t, c < 0x110000 ∧ ¬ (0xD800 ≤ c ∧ c ≤ 0xDFFF)) ∧ (t.map utf8CharLen).sum ≤ 32767) :
+    ∃ bs, encodeSubs subs = .ok bs := by
+  induction subs with
+  | nil => exact ⟨[], rfl⟩
+  | cons t ts ih =>
+    obtain ⟨tb, htb⟩ := writeShortText_ok (h t List.mem_cons_self).1 (h t List.mem_cons_self).2
+    obtain ⟨rb, hrb⟩ := ih (fun t' ht' => h t' (List.mem_cons_of_mem _ ht'))
+    exact ⟨tb ++ rb, by rw [encodeSubs, htb]; simp only [hrb]⟩
+
+/-- `join_group_protocols(subscriptions)` does not raise on in-range subscriptions. -/
+theorem joinGroupMetadata_ok {subs : List Str} (h : subsEncodable subs = true) :
+    ∃ bs, joinGroupMetadata subs = .ok bs := by
+  simp only [subsEncodable, Bool.and_eq_true, decide_eq_true_eq, List.all_eq_true, Bool.not_eq_true',
+    Bool.and_eq_false_imp] at h
+  obtain ⟨sb, hsb⟩ := encodeSubs_ok (subs := subs) (fun t ht => by
+    obtain ⟨h1, h2⟩ := h.2 t ht
+    refine ⟨fun c hc => ?_, h2⟩
+    obtain ⟨a, b⟩ := h1 c hc
+    refine ⟨a, fun hsur => ?_⟩
+    have := b hsur.1
+    simp only [decide_eq_false_iff_not] at this
+    exact this hsur.2)
+  obtain ⟨vb, hvb⟩ := packInt_ok_of_range (w := asgMmEncVersionW) (v := asgMmEncodedVersion) (by decide) (by decide)
+  obtain ⟨nb, hnb⟩ := packInt_ok_of_range (w := asgMmEncNumSubsW) (v := (subs.length : Int))
+    (by simp [asgMmEncNumSubsW]) (by simp [asgMmEncNumSubsW]; omega)
+  obtain ⟨ub, hub⟩ : ∃ ub, writeIntString [] = .ok ub := by
+    obtain ⟨l, hl⟩ := packInt_ok_of_range (w := asgIntLenEncW) (v := (([] : Bytes).length : Int)) (by decide) (by decide)
+    exact ⟨l ++ [], by rw [writeIntString, hl]⟩
+  exact ⟨vb ++ nb ++ sb ++ ub, by unfold joinGroupMetadata encodeMetadata; simp only [hvb, hnb, hsb, hub]⟩
+
+end Afkak.Assign
